@@ -369,19 +369,22 @@ rc::Gen<scase_t> gen_case(const family_t family)
 }
 
 // ---- mechanism predicate of finding F13 (ellipsoid: convergence decided by rounding noise) ------------
-// The shape matrix H of the ellipsoid method is re-built in long double along the trajectory the library
-// actually took (the points, values and sub-gradients it was shown, in call order), with the deep-cut update of
-// src/solver/ellipsoid.cpp. Returns the extended-precision values of the two quantities the library compares
-// with its thresholds when it stops: sqrt(g'Hg) of the last update and of the current point. Both well above
-// epsilon means that the reported convergence was produced by cancellation in g'Hg (H is numerically singular).
+// The shape matrix H of the ellipsoid method is re-built along the trajectory the library actually took (the
+// points, values and sub-gradients it was shown, in call order) with the deep-cut update of src/solver/ellipsoid.cpp,
+// once in long double and once in double. Reported are the two quantities the library compares with its thresholds
+// when it stops: sqrt(g'Hg) of the last update and at the current point. The mechanism is present when, in long
+// double, both are well above epsilon (the stopping criterion is not met) AND the double-precision replay of the very
+// same recurrence cannot reproduce them (g'Hg off by more than half, negative or not finite): the value the
+// library tests is rounding noise. A wrong stopping rule or a wrong update formula does not match: both replays
+// then agree with each other.
 struct shape_replay_t
 {
     bool        valid{false};
-    long double last_update{0.0L}; // sqrt(g'Hg) used for the last update (test `sqrt(gHg) < epsilon`)
-    long double current{0.0L};     // sqrt(g'Hg) at the last evaluated point (test `gHg < machine epsilon`)
-    long double condition{0.0L};   // largest / smallest diagonal entry of H at the end (cheap conditioning indicator)
+    long double last_update{0.0L}; // g'Hg used for the last update (test `sqrt(gHg) < epsilon`)
+    long double current{0.0L};     // g'Hg at the last evaluated point (test `gHg < machine epsilon`)
 };
 
+template <class treal>
 shape_replay_t replay_shape(const std::vector<counted_t::eval_t>& history, const int n, const double R)
 {
     shape_replay_t out;
@@ -389,39 +392,39 @@ shape_replay_t replay_shape(const std::vector<counted_t::eval_t>& history, const
     {
         return out;
     }
-    const auto               N = static_cast<size_t>(n);
-    const long double        ln = static_cast<long double>(n);
-    std::vector<long double> H(N * N, 0.0L), Hg(N);
+    const auto         N  = static_cast<size_t>(n);
+    const treal        ln = static_cast<treal>(n);
+    std::vector<treal> H(N * N, treal(0)), Hg(N);
     for (size_t i = 0; i < N; ++i)
     {
-        H[i * N + i] = static_cast<long double>(R) * static_cast<long double>(R);
+        H[i * N + i] = static_cast<treal>(R) * static_cast<treal>(R);
     }
     const auto quad = [&](const std::vector<double>& g)
     {
-        long double gHg = 0.0L;
+        treal gHg = treal(0);
         for (size_t i = 0; i < N; ++i)
         {
-            Hg[i] = 0.0L;
+            Hg[i] = treal(0);
             for (size_t j = 0; j < N; ++j)
             {
-                Hg[i] += H[i * N + j] * static_cast<long double>(g[j]);
+                Hg[i] += H[i * N + j] * static_cast<treal>(g[j]);
             }
-            gHg += static_cast<long double>(g[i]) * Hg[i];
+            gHg += static_cast<treal>(g[i]) * Hg[i];
         }
         return gHg;
     };
-    long double best = static_cast<long double>(history[0].f);
+    treal best = static_cast<treal>(history[0].f);
     for (size_t k = 0; k + 1 < history.size(); ++k)
     {
         const auto gHg = quad(history[k].g);
-        if (!(gHg > 0.0L) || !std::isfinite(static_cast<double>(gHg)))
+        out.last_update = static_cast<long double>(gHg);
+        if (!(gHg > treal(0)) || !std::isfinite(static_cast<double>(gHg)))
         {
-            return out;
+            return out; // (valid stays false: the recurrence broke down in this precision)
         }
-        out.last_update  = std::sqrt(gHg);
-        const auto alpha = (static_cast<long double>(history[k].f) - best) / std::sqrt(gHg);
-        const auto scale = (ln * ln) / (ln * ln - 1.0L) * (1.0L - alpha * alpha);
-        const auto beta  = 2.0L * (1.0L + ln * alpha) / (ln + 1.0L) / (1.0L + alpha) / gHg;
+        const auto alpha = (static_cast<treal>(history[k].f) - best) / std::sqrt(gHg);
+        const auto scale = (ln * ln) / (ln * ln - treal(1)) * (treal(1) - alpha * alpha);
+        const auto beta  = treal(2) * (treal(1) + ln * alpha) / (ln + treal(1)) / (treal(1) + alpha) / gHg;
         for (size_t i = 0; i < N; ++i)
         {
             for (size_t j = 0; j < N; ++j)
@@ -429,22 +432,38 @@ shape_replay_t replay_shape(const std::vector<counted_t::eval_t>& history, const
                 H[i * N + j] = scale * (H[i * N + j] - beta * Hg[i] * Hg[j]);
             }
         }
-        best = std::min(best, static_cast<long double>(history[k + 1].f));
+        best = std::min(best, static_cast<treal>(history[k + 1].f));
     }
     const auto gHg = quad(history.back().g);
-    if (!(gHg >= 0.0L) || !std::isfinite(static_cast<double>(gHg)))
+    out.current    = static_cast<long double>(gHg);
+    out.valid      = std::isfinite(static_cast<double>(gHg));
+    return out;
+}
+
+struct cancellation_t
+{
+    bool        present{false};
+    long double exact_last{0.0L}, exact_current{0.0L}; // sqrt(g'Hg) in long double
+    long double double_last{0.0L}, double_current{0.0L}; // g'Hg of the double replay (may be negative)
+};
+
+cancellation_t shape_cancellation(const std::vector<counted_t::eval_t>& history, const int n, const double R, const double epsilon)
+{
+    cancellation_t out;
+    const auto     exact = replay_shape<long double>(history, n, R);
+    if (!exact.valid || !(exact.last_update > 0.0L) || !(exact.current > 0.0L))
     {
         return out;
     }
-    out.current = std::sqrt(gHg);
-    long double dmin = H[0], dmax = H[0];
-    for (size_t i = 0; i < N; ++i)
-    {
-        dmin = std::min(dmin, H[i * N + i]);
-        dmax = std::max(dmax, H[i * N + i]);
-    }
-    out.condition = dmin > 0.0L ? dmax / dmin : std::numeric_limits<long double>::infinity();
-    out.valid     = true;
+    out.exact_last    = std::sqrt(exact.last_update);
+    out.exact_current = std::sqrt(exact.current);
+    const auto rough  = replay_shape<double>(history, n, R);
+    out.double_last    = rough.last_update;
+    out.double_current = rough.current;
+    const auto off     = [](const long double approx, const long double reference)
+    { return !std::isfinite(static_cast<double>(approx)) || std::fabs(approx - reference) > 0.5L * reference; };
+    const auto unmet   = out.exact_last > 2.0L * static_cast<long double>(epsilon) && out.exact_current > 2.0L * static_cast<long double>(epsilon);
+    out.present        = unmet && (!rough.valid || off(rough.last_update, exact.last_update) || off(rough.current, exact.current));
     return out;
 }
 
@@ -615,7 +634,7 @@ verdict_t check_case(const scase_t& c, ctx_t& ctx)
         // noise of the size of the tolerance: 4*eps_machine*max|f shown to the solver| explains the excess gap
         const auto noise = 4.0 * std::numeric_limits<double>::epsilon() * function.max_abs_value();
         ctx.maximum("cancellation-noise/bound", noise / static_cast<double>(bound));
-        if (ratio > 1.0 && !ellipsoid && static_cast<double>(ref.gap) <= 100.0 * noise)
+        if (ratio > 1.0 && !ellipsoid && static_cast<double>(ref.gap) <= 4.0 * noise)
         {
             // ... and only when the proximity parameter is involved: prox::miu0_range is not at its default, or a second,
             // logged run of the same (deterministic) solve shows miu below 1e-8
@@ -657,18 +676,16 @@ verdict_t check_case(const scase_t& c, ctx_t& ctx)
         }
         if (ratio > 1.0 && ellipsoid)
         {
-            // mechanism of finding F13: H has become numerically singular and g'Hg is cancellation noise (possibly
-            // negative, which the `gHg < machine epsilon` exit takes for convergence); in extended precision
-            // neither stopping quantity is anywhere near its threshold
-            const auto shape = replay_shape(function.history(), c.n, c.radius);
-            if (shape.valid && shape.last_update > 2.0L * static_cast<long double>(c.epsilon) &&
-                shape.current > 2.0L * static_cast<long double>(c.epsilon))
+            // mechanism of finding F13: the shape matrix has lost its accuracy, g'Hg is cancellation noise (possibly
+            // negative, which the `gHg < machine epsilon` exit takes for convergence)
+            const auto shape = shape_cancellation(function.history(), c.n, c.radius, c.epsilon);
+            if (shape.present)
             {
                 return verdict_t::known("C03/converged-not-optimal/ellipsoid/shape-matrix-cancellation",
                                         cat("f(x)-f*=", static_cast<double>(ref.gap), " bound=", static_cast<double>(bound),
-                                            " sqrt(g'Hg) in long double: last update ", static_cast<double>(shape.last_update),
-                                            ", current ", static_cast<double>(shape.current), " diag(H) max/min=",
-                                            static_cast<double>(shape.condition), "; ", info()));
+                                            " sqrt(g'Hg) replayed in long double: last update ", static_cast<double>(shape.exact_last),
+                                            ", current ", static_cast<double>(shape.exact_current), "; g'Hg replayed in double: ",
+                                            static_cast<double>(shape.double_last), ", ", static_cast<double>(shape.double_current), "; ", info()));
             }
         }
         if (ratio > 10.0)
